@@ -280,3 +280,50 @@ Proof. split; vm_compute; reflexivity. Qed.
 (* closing the caller's buffer (directly or through a wrapper that owns it) loses the content for the caller *)
 Lemma close_loses_buffer : s_buf (exec [OSeek 0; ORead None; OClose] (mkStream [1;2] 0)) <> [1;2].
 Proof. vm_compute. intro H. discriminate H. Qed.
+
+(* ======================================================================= Part G *)
+Lemma to_process_app {R} (a b : list (amember R)) : to_process (a ++ b) = to_process a ++ to_process b.
+Proof. unfold to_process. apply filter_app. Qed.
+
+Lemma archive_results_app {R} (a b : list (amember R)) :
+  archive_results (a ++ b) = archive_results a ++ archive_results b.
+Proof. unfold archive_results. rewrite to_process_app, flat_map_app. reflexivity. Qed.
+
+Lemma archive_results_cons {R} (m : amember R) ms :
+  archive_results (m :: ms) =
+  (if am_dir m || am_skip m || am_too_large m || am_unreadable m then [] else am_results m) ++ archive_results ms.
+Proof.
+  destruct m as [d k l u rs]. unfold archive_results, to_process, entry_results.
+  destruct d, k, l, u; simpl; reflexivity.
+Qed.
+
+(* every result of an earlier member precedes every result of a later member *)
+Lemma archive_order {R} (a : list (amember R)) m1 (b : list (amember R)) m2 (c : list (amember R)) r1 r2 :
+  In r1 (archive_results [m1]) -> In r2 (archive_results [m2]) ->
+  exists pre mid post, archive_results (a ++ m1 :: b ++ m2 :: c) = pre ++ r1 :: mid ++ r2 :: post.
+Proof.
+  intros H1 H2.
+  apply in_split in H1 as [x1 [y1 E1]]. apply in_split in H2 as [x2 [y2 E2]].
+  replace (a ++ m1 :: b ++ m2 :: c) with (a ++ [m1] ++ b ++ [m2] ++ c) by reflexivity.
+  rewrite !archive_results_app, E1, E2.
+  exists (archive_results a ++ x1), (y1 ++ archive_results b ++ x2), (y2 ++ archive_results c).
+  repeat rewrite <- app_assoc. simpl. repeat rewrite <- app_assoc. reflexivity.
+Qed.
+
+Lemma pool_in_order_independent {R} (c1 c2 : list (amember R) -> list (amember R)) ms :
+  pool_in_submission_order c1 ms = pool_in_submission_order c2 ms
+  /\ pool_in_submission_order c1 ms = archive_results ms.
+Proof. split; reflexivity. Qed.
+
+Lemma pool_as_completed_depends :
+  exists (c1 c2 : list (amember N) -> list (amember N)) (ms : list (amember N)),
+    (forall l, Permutation (c1 l) l) /\ (forall l, Permutation (c2 l) l) /\
+    pool_as_completed c1 ms <> pool_as_completed c2 ms.
+Proof.
+  exists (fun l => l), (@rev (amember N)),
+         [mkAM false false false false [1]; mkAM false false false false [2]].
+  repeat split.
+  - intro l. apply Permutation_refl.
+  - intro l. apply Permutation_sym, Permutation_rev.
+  - vm_compute. intro H. discriminate H.
+Qed.
